@@ -92,13 +92,22 @@ def util_events(rng, thorough):
         pat = [rng.randrange(256) for _ in range(rng.randrange(1, 40))]
         n = len(pat)
         pw = bytes(pat)
-        res = _fast.get_master_key(alg, pw)
-        out.append(dict(ev="Master", alg=alg, pat=pat, pwlen=n, exc="", bases=[], isexc=True, out=list(res),
+        exc, bases, isexc, res = "", [], True, b""
+        try:
+            res = _fast.get_master_key(alg, pw)
+        except BaseException as e:  # noqa
+            exc, bases, isexc = exc_info(e)
+        out.append(dict(ev="Master", alg=alg, pat=pat, pwlen=n, exc=exc, bases=bases, isexc=isexc, out=list(res),
                         interp=[dict(f="kmaster", alg=alg, pat=pat, n=n, out=list(rx.password_to_master(ALGN[alg], pw)))]))
         engine = bytes(rng.randrange(256) for _ in range(rng.randrange(0, 33)))
-        loc = _fast.get_localized_key(alg, res, engine)
-        out.append(dict(ev="Localize", alg=alg, master=list(res), engine=list(engine), exc="", bases=[], isexc=True, out=list(loc),
-                        interp=[dict(f="kul", alg=alg, master=list(res), engine=list(engine), out=list(rx.localize(ALGN[alg], bytes(res), engine)))]))
+        master = bytes(res) if res else rx.password_to_master(ALGN[alg], pw)
+        exc, bases, isexc, loc = "", [], True, b""
+        try:
+            loc = _fast.get_localized_key(alg, master, engine)
+        except BaseException as e:  # noqa
+            exc, bases, isexc = exc_info(e)
+        out.append(dict(ev="Localize", alg=alg, master=list(master), engine=list(engine), exc=exc, bases=bases, isexc=isexc, out=list(loc),
+                        interp=[dict(f="kul", alg=alg, master=list(master), engine=list(engine), out=list(rx.localize(ALGN[alg], master, engine)))]))
     return out
 
 
